@@ -27,14 +27,27 @@
 (* those recorded for e.  The code's offsets are constants of the model    *)
 (* (RecOff, RetOff, NextOff); the aggregator and the property use the      *)
 (* protocol's values +1 / -1 / 0.                                          *)
+(*                                                                         *)
+(* Protocol parameters change between epochs.  The aggregator keeps one    *)
+(* configuration per recording epoch r (gen[r], a parameter GENERATION):   *)
+(* single signatures of epoch e are verified with gen[e-1], the protocol   *)
+(* message of epoch e carries the next parameters gen[e], and a key        *)
+(* registered during e (recorded for e+1, signing in e+2) must embed       *)
+(* gen[e+1].  Seen from epoch e the aggregator serves the three as the     *)
+(* configurations for aggregation / next aggregation / registration.  The  *)
+(* configuration the CODE takes its registration parameters from is the    *)
+(* constant RegParamsOff (current code: +1 = "for registration").          *)
 (***************************************************************************)
 EXTENDS Integers, Sequences, FiniteSets, TLC
 
 CONSTANTS
     MaxEpoch, MaxImm,
     MaxRestarts, MaxFaults, MaxTurns,
+    MaxFlips,           \* how often the protocol parameters may change at an epoch boundary
     Others,             \* the other pool operators
     RecOff, RetBack, NextOff,   \* the offsets the signer code applies (current code: +1, -1 (RetBack = 1), +0)
+    RegParamsOff,       \* the served configuration the code creates new keys with, as an offset to the epoch:
+                        \* +1 = configuration for registration (current code), 0 = for the next aggregation
     EpochRechecked,     \* TRUE: the cycle is abandoned when the second read of the time point shows another epoch
                         \*       (proposed fix); FALSE: current code
     MarkFirst,          \* TRUE: beacon marked as signed before the publication (mutant); FALSE: current code
@@ -44,20 +57,22 @@ VARIABLES
     epoch, imm,         \* the chain (environment)
     \* ---- signer sqlite ----
     init,               \* init[r]   : id of the key stored for recording epoch r (0: none); insert or ignore
+    igen,               \* igen[r]   : parameter generation embedded in that initializer (0: none)
     stakes,             \* stakes[r] : chain epoch whose stake distribution is stored for r (0: none)
     signed,             \* beacons marked as signed
     \* ---- aggregator ----
     reg,                \* reg[r]    : id of the signer's key LAST registered for recording epoch r (0: none)
     others,             \* others[r] : other operators registered for r
-    published,          \* signatures received: [entity, key, cur, msg, at]
+    gen,                \* gen[r]    : parameter generation of the configuration kept for recording epoch r (0: not yet)
+    published,          \* signatures received: [entity, key, cur, msg, gen, ngen, at]
     \* ---- signer memory ----
     st,                 \* [state, epoch]   state in init / unreg / ready / nosign
-    ed,                 \* epoch service data: [epoch, key, cur]  (epoch 0: not initialised)
+    ed,                 \* epoch service data: [epoch, key, kgen, cur, rgen]  (epoch 0: not initialised)
     pc, pend,           \* progress inside a cycle
     \* ---- bookkeeping ----
     nextKey, cnt, lagged, last
-vars == <<epoch, imm, init, stakes, signed, reg, others, published, st, ed, pc, pend, nextKey, cnt, lagged, last>>
-view == <<epoch, imm, init, stakes, signed, reg, others, published, st, ed, pc, pend, nextKey, cnt, lagged>>
+vars == <<epoch, imm, init, igen, stakes, signed, reg, others, gen, published, st, ed, pc, pend, nextKey, cnt, lagged, last>>
+view == <<epoch, imm, init, igen, stakes, signed, reg, others, gen, published, st, ed, pc, pend, nextKey, cnt, lagged>>
 
 RetOff == 0 - RetBack
 Rec == 0..(MaxEpoch + 2)
@@ -66,42 +81,47 @@ At(f, r) == IF r \in DOMAIN f THEN f[r] ELSE 0
 MSD(e)    == <<"MSD", e>>
 CDB(e, i) == <<"CDB", e, i>>
 EE(en)    == en[2]              \* the epoch a beacon belongs to
-NoPend    == [f |-> "none", agg |-> 0, curKey |-> 0, te |-> 0, key |-> 0, entity |-> <<"none">>]
-NoData    == [epoch |-> 0, key |-> 0, cur |-> 0]
+NoPend    == [f |-> "none", agg |-> 0, curKey |-> 0, rgen |-> 0, te |-> 0, key |-> 0, entity |-> <<"none">>]
+NoData    == [epoch |-> 0, key |-> 0, kgen |-> 0, cur |-> 0, rgen |-> 0]
 
 Init ==
     /\ epoch = 1 /\ imm = 1
-    /\ init = [r \in Rec |-> 0] /\ stakes = [r \in Rec |-> 0] /\ signed = {}
+    /\ init = [r \in Rec |-> 0] /\ igen = [r \in Rec |-> 0] /\ stakes = [r \in Rec |-> 0] /\ signed = {}
     /\ reg = [r \in Rec |-> 0] /\ others = [r \in Rec |-> {}] /\ published = {}
+    /\ gen = [r \in Rec |-> IF r <= 2 THEN 1 ELSE 0]        \* epoch 1 needs the configurations of 0, 1 and 2
     /\ st = [state |-> "init", epoch |-> 0] /\ ed = NoData
     /\ pc = "idle" /\ pend = NoPend
-    /\ nextKey = 1 /\ cnt = [restarts |-> 0, faults |-> 0, turns |-> 0] /\ lagged = {}
+    /\ nextKey = 1 /\ cnt = [restarts |-> 0, faults |-> 0, turns |-> 0, flips |-> 0] /\ lagged = {}
     /\ last = [a |-> "Init"]
 
 Fault(f) == IF f = "none" THEN cnt' = cnt ELSE cnt.faults < MaxFaults /\ cnt' = [cnt EXCEPT !.faults = @ + 1]
 
 -----------------------------------------------------------------------------
 (* environment *)
-EpochUp ==
+(* entering epoch e the aggregator creates the configuration for recording epoch e+1 (the parameters keys         *)
+(* registered during e will sign with in e+2): the same as before, or -- operators' decision -- the other generation *)
+EpochUp(flip) ==
     /\ pc \in {"idle", "fetched"} /\ epoch < MaxEpoch
     /\ pc = "fetched" => cnt.turns < MaxTurns
+    /\ flip => cnt.flips < MaxFlips
     /\ epoch' = epoch + 1
-    /\ cnt' = IF pc = "fetched" THEN [cnt EXCEPT !.turns = @ + 1] ELSE cnt
-    /\ last' = [a |-> "EpochUp", during |-> pc = "fetched"]
-    /\ UNCHANGED <<imm, init, stakes, signed, reg, others, published, st, ed, pc, pend, nextKey, lagged>>
+    /\ gen' = [gen EXCEPT ![epoch + 2] = IF flip THEN 3 - gen[epoch + 1] ELSE gen[epoch + 1]]
+    /\ cnt' = [cnt EXCEPT !.turns = IF pc = "fetched" THEN @ + 1 ELSE @, !.flips = IF flip THEN @ + 1 ELSE @]
+    /\ last' = [a |-> "EpochUp", during |-> pc = "fetched", flip |-> flip]
+    /\ UNCHANGED <<imm, init, igen, stakes, signed, reg, others, published, st, ed, pc, pend, nextKey, lagged>>
 
 ImmUp ==
     /\ pc = "idle" /\ imm < MaxImm
     /\ imm' = imm + 1
     /\ last' = [a |-> "ImmUp"]
-    /\ UNCHANGED <<epoch, init, stakes, signed, reg, others, published, st, ed, pc, pend, nextKey, cnt, lagged>>
+    /\ UNCHANGED <<epoch, init, igen, stakes, signed, reg, others, published, st, ed, pc, pend, nextKey, cnt, lagged, gen>>
 
 (* other operators register during the current epoch: recorded for epoch + 1 *)
 OthersRegister(S) ==
     /\ pc = "idle" /\ S # {} /\ others[epoch + 1] = {}
     /\ others' = [others EXCEPT ![epoch + 1] = S]
     /\ last' = [a |-> "Others", who |-> S]
-    /\ UNCHANGED <<epoch, imm, init, stakes, signed, reg, published, st, ed, pc, pend, nextKey, cnt, lagged>>
+    /\ UNCHANGED <<epoch, imm, init, igen, stakes, signed, reg, published, st, ed, pc, pend, nextKey, cnt, lagged, gen>>
 
 -----------------------------------------------------------------------------
 (* cycles that do not talk to the aggregator *)
@@ -109,18 +129,18 @@ TickInit ==
     /\ pc = "idle" /\ st.state = "init"
     /\ st' = [state |-> "unreg", epoch |-> epoch]
     /\ last' = [a |-> "Tick", fault |-> "none"]
-    /\ UNCHANGED <<epoch, imm, init, stakes, signed, reg, others, published, ed, pc, pend, nextKey, cnt, lagged>>
+    /\ UNCHANGED <<epoch, imm, init, igen, stakes, signed, reg, others, published, ed, pc, pend, nextKey, cnt, lagged, gen>>
 
 TickEpochChanged ==
     /\ pc = "idle" /\ st.state \in {"unreg", "ready", "nosign"} /\ epoch > st.epoch
     /\ st' = [state |-> "unreg", epoch |-> epoch]
     /\ last' = [a |-> "Tick", fault |-> "none"]
-    /\ UNCHANGED <<epoch, imm, init, stakes, signed, reg, others, published, ed, pc, pend, nextKey, cnt, lagged>>
+    /\ UNCHANGED <<epoch, imm, init, igen, stakes, signed, reg, others, published, ed, pc, pend, nextKey, cnt, lagged, gen>>
 
 TickNoSignWait ==
     /\ pc = "idle" /\ st.state = "nosign" /\ epoch = st.epoch
     /\ last' = [a |-> "Tick", fault |-> "none"]
-    /\ UNCHANGED <<epoch, imm, init, stakes, signed, reg, others, published, st, ed, pc, pend, nextKey, cnt, lagged>>
+    /\ UNCHANGED <<epoch, imm, init, igen, stakes, signed, reg, others, published, st, ed, pc, pend, nextKey, cnt, lagged, gen>>
 
 -----------------------------------------------------------------------------
 (* UNREGISTERED: epoch settings, then (stake distribution, epoch data), registration, initializer *)
@@ -133,9 +153,12 @@ TickUnregFetch(f) ==
        THEN UNCHANGED <<pc, pend>>                                 \* the cycle fails / waits, state kept
        ELSE /\ pc' = "fetched"
             \* current signers = those recorded for agg - 1 (the aggregator follows the protocol)
-            /\ pend' = [NoPend EXCEPT !.f = f, !.agg = agg, !.curKey = At(reg, agg - 1)]
+            \* and the network configuration: the code keeps, for new keys, the parameters of one of the three
+            \* configurations served (asked for by the signer's own epoch)
+            /\ pend' = [NoPend EXCEPT !.f = f, !.agg = agg, !.curKey = At(reg, agg - 1),
+                                      !.rgen = At(gen, st.epoch + RegParamsOff)]
     /\ last' = [a |-> "Tick", fault |-> f]
-    /\ UNCHANGED <<epoch, imm, init, stakes, signed, reg, others, published, st, ed, nextKey, lagged>>
+    /\ UNCHANGED <<epoch, imm, init, igen, stakes, signed, reg, others, published, st, ed, nextKey, lagged, gen>>
 
 (* the time point is read AGAIN (the chain may have moved since the epoch settings were fetched), *)
 (* the stake distribution is stored, the epoch service is informed                                *)
@@ -144,10 +167,11 @@ SaveStakes ==
     /\ IF EpochRechecked /\ epoch # st.epoch
        THEN pc' = "idle" /\ pend' = NoPend /\ UNCHANGED <<stakes, ed>>       \* the cycle fails, state kept
        ELSE /\ stakes' = IF At(stakes, epoch + RecOff) = 0 THEN [stakes EXCEPT ![epoch + RecOff] = epoch] ELSE stakes
-            /\ ed' = [epoch |-> pend.agg, key |-> At(init, pend.agg + RetOff), cur |-> pend.agg + RetOff]
+            /\ ed' = [epoch |-> pend.agg, key |-> At(init, pend.agg + RetOff), kgen |-> At(igen, pend.agg + RetOff),
+                      cur |-> pend.agg + RetOff, rgen |-> pend.rgen]
             /\ pc' = "staked" /\ pend' = [pend EXCEPT !.te = epoch]
     /\ last' = [a |-> "Internal", step |-> "stakes"]
-    /\ UNCHANGED <<epoch, imm, init, signed, reg, others, published, st, nextKey, cnt, lagged>>
+    /\ UNCHANGED <<epoch, imm, init, igen, signed, reg, others, published, st, nextKey, cnt, lagged, gen>>
 
 CanSign == ed.key # 0 /\ pend.curKey = ed.key      \* an initializer for the epoch, whose key is among the current signers
 Finished ==     \* upkeep, can_sign_current_epoch, new state
@@ -163,12 +187,13 @@ Register ==
     /\ IF At(stakes, RecEpoch) = 0
        THEN \* no stake distribution for that epoch: the cycle fails, state kept
             /\ pc' = "idle" /\ pend' = NoPend
-            /\ UNCHANGED <<init, reg, st, nextKey, lagged>>
+            /\ UNCHANGED <<init, igen, reg, st, nextKey, lagged>>
        ELSE IF At(init, RecEpoch) # 0
        THEN \* already registered for that epoch: nothing sent
-            /\ Finished /\ UNCHANGED <<init, reg, nextKey>>
+            /\ Finished /\ UNCHANGED <<init, igen, reg, nextKey>>
        ELSE /\ nextKey' = nextKey + 1
             /\ init' = IF SaveFirst THEN [init EXCEPT ![RecEpoch] = nextKey] ELSE init
+            /\ igen' = IF SaveFirst THEN [igen EXCEPT ![RecEpoch] = ed.rgen] ELSE igen      \* (a key embeds its parameters)
             /\ IF pend.f = "closed"
                THEN /\ st' = [state |-> "unreg", epoch |-> pend.te]       \* 550: round not yet open
                     /\ pc' = "idle" /\ pend' = NoPend /\ UNCHANGED <<reg, lagged>>
@@ -180,14 +205,15 @@ Register ==
                        ELSE pc' = "registered" /\ pend' = [pend EXCEPT !.key = nextKey]
                     /\ UNCHANGED <<st, lagged>>
     /\ last' = [a |-> "Internal", step |-> "register"]
-    /\ UNCHANGED <<epoch, imm, stakes, signed, others, published, ed, cnt>>
+    /\ UNCHANGED <<epoch, imm, stakes, signed, others, published, ed, cnt, gen>>
 
 SaveInit ==
     /\ pc = "registered"
     /\ init' = IF At(init, RecEpoch) = 0 THEN [init EXCEPT ![RecEpoch] = pend.key] ELSE init
+    /\ igen' = IF At(init, RecEpoch) = 0 THEN [igen EXCEPT ![RecEpoch] = ed.rgen] ELSE igen
     /\ Finished
     /\ last' = [a |-> "Internal", step |-> "save_init"]
-    /\ UNCHANGED <<epoch, imm, stakes, signed, reg, others, published, ed, nextKey, cnt>>
+    /\ UNCHANGED <<epoch, imm, stakes, signed, reg, others, published, ed, nextKey, cnt, gen>>
 
 -----------------------------------------------------------------------------
 (* READY TO SIGN *)
@@ -198,7 +224,10 @@ CanComputeMessage ==    \* next aggregate key: initializer + stake distribution 
     At(init, ed.epoch + NextOff) # 0 /\ At(stakes, ed.epoch + NextOff) # 0
 CanBuildSigner == At(stakes, ed.cur) # 0
 
-Signature(en) == [entity |-> en, key |-> ed.key, cur |-> ed.cur, msg |-> ed.epoch, at |-> epoch]
+\* signed with the parameters embedded in the epoch's initializer; the message carries, as next parameters, those
+\* embedded in the initializer stored for the next retrieval epoch
+Signature(en) == [entity |-> en, key |-> ed.key, cur |-> ed.cur, msg |-> ed.epoch,
+                  gen |-> ed.kgen, ngen |-> At(igen, ed.epoch + NextOff), at |-> epoch]
 
 TickReady(f) ==
     /\ pc = "idle" /\ st.state = "ready" /\ epoch = st.epoch
@@ -215,14 +244,14 @@ TickReady(f) ==
                     /\ IF f = "pub_half" THEN UNCHANGED <<pc, pend>>
                        ELSE pc' = "published" /\ pend' = [NoPend EXCEPT !.entity = en]
     /\ last' = [a |-> "Tick", fault |-> f]
-    /\ UNCHANGED <<epoch, imm, init, stakes, reg, others, st, ed, nextKey, lagged>>
+    /\ UNCHANGED <<epoch, imm, init, igen, stakes, reg, others, st, ed, nextKey, lagged, gen>>
 
 MarkSigned ==
     /\ pc = "published"
     /\ signed' = signed \cup {pend.entity}
     /\ pc' = "idle" /\ pend' = NoPend
     /\ last' = [a |-> "Internal", step |-> "mark"]
-    /\ UNCHANGED <<epoch, imm, init, stakes, reg, others, published, st, ed, nextKey, cnt, lagged>>
+    /\ UNCHANGED <<epoch, imm, init, igen, stakes, reg, others, published, st, ed, nextKey, cnt, lagged, gen>>
 
 -----------------------------------------------------------------------------
 (* the process stops (between any two steps) and restarts: memory is lost, sqlite is kept *)
@@ -232,7 +261,7 @@ Restart ==
     /\ pc' = "idle" /\ pend' = NoPend
     /\ cnt' = [cnt EXCEPT !.restarts = @ + 1]
     /\ last' = [a |-> "Restart", at |-> pc]
-    /\ UNCHANGED <<epoch, imm, init, stakes, signed, reg, others, published, nextKey, lagged>>
+    /\ UNCHANGED <<epoch, imm, init, igen, stakes, signed, reg, others, published, nextKey, lagged, gen>>
 
 UnregFaults == {"none", "unavailable", "stale", "closed", "reg_fail", "reg_half"}
 ReadyFaults == {"none", "unavailable", "pub_fail", "pub_half"}
@@ -240,13 +269,13 @@ Tick == \/ TickInit \/ TickEpochChanged \/ TickNoSignWait
         \/ \E f \in UnregFaults : TickUnregFetch(f)
         \/ \E f \in ReadyFaults : TickReady(f)
 Internal == SaveStakes \/ Register \/ SaveInit \/ MarkSigned
-Env == EpochUp \/ ImmUp \/ (\E S \in SUBSET Others : OthersRegister(S)) \/ Restart
+Env == (\E flip \in BOOLEAN : EpochUp(flip)) \/ ImmUp \/ (\E S \in SUBSET Others : OthersRegister(S)) \/ Restart
 Next == Tick \/ Internal \/ Env
 Spec == Init /\ [][Next]_vars
 
 -----------------------------------------------------------------------------
 (* The property clauses (protocol offsets: recorded for e+1, signing key of e recorded for e-1) *)
-SigValue(p) == <<p.key, p.cur, p.msg>>     \* what determines the signature value of a beacon
+SigValue(p) == <<p.key, p.cur, p.msg, p.gen, p.ngen>>     \* what determines the signature value of a beacon
 
 (* (a) per beacon at most one distinct signature value is ever published ... *)
 OneSignaturePerBeacon == \A p, q \in published : p.entity = q.entity => SigValue(p) = SigValue(q)
@@ -257,7 +286,10 @@ NoPublishAfterMark == [][\A p \in published' \ published : p.entity \notin signe
 EpochKeyFor(p) == LET r == EE(p.entity) - 1 IN p.key # 0 /\ p.key = At(init, r) /\ p.key = At(reg, r)
 (* (c) accepted by an aggregator deriving its signer set from the same registrations: signed under the     *)
 (*     signer set recorded for e-1 with the key registered there, over the message of epoch e              *)
-AcceptedFor(p) == LET e == EE(p.entity) IN p.cur = e - 1 /\ p.key = At(reg, e - 1) /\ p.key # 0 /\ p.msg = e
+(*     with the parameters the aggregator keeps for that epoch, the message carrying its next parameters    *)
+AcceptedFor(p) == LET e == EE(p.entity) IN
+    /\ p.cur = e - 1 /\ p.key = At(reg, e - 1) /\ p.key # 0 /\ p.msg = e
+    /\ p.gen = At(gen, e - 1) /\ p.ngen = At(gen, e)
 EpochKey == \A p \in published : EpochKeyFor(p)
 Accepted == \A p \in published : AcceptedFor(p)
 
